@@ -32,6 +32,6 @@ def domain_iter_report():
 
 
 def run(tier):
-    from ..contracts import cvec
+    from ..contracts import cvec, aggsite
     # "collections of factors combine clique by clique": CliqueVector arithmetic in the one-key view, combine by site contracts
-    return deductive.verify_module('factor', nproc=14) + [deductive.lemma_report(), domain_iter_report()] + cvec.reports()
+    return deductive.verify_module('factor', nproc=14) + [deductive.lemma_report(), domain_iter_report()] + cvec.reports() + aggsite.reports()
